@@ -48,6 +48,13 @@ static void mode_result(void) {
             }
         }
     }
+    /* empty regions: nothing is compared, whatever lies at the two addresses */
+    for (int a = 0; a < 256; a += 5) { A[0] = (unsigned char)a; B[0] = (unsigned char)(a ^ 0xff); A[1] = 1; B[1] = 2;
+        int r1 = _timingsafe_bcmp_chk(A, B, 0, BOS_UNKNOWN, BOS_UNKNOWN), r2 = _timingsafe_memcmp_chk(A, B, 0, BOS_UNKNOWN, BOS_UNKNOWN), r3 = _timingsafe_bcmp_chk(A + 1, B + 1, 0, 79, 79), r4 = _timingsafe_memcmp_chk(A + 1, B + 1, 0, 79, 79);
+        n_calls += 4;
+        if (r1 || r3) { snprintf(obs, sizeof obs, "n=0 with different bytes at the two addresses (%#x vs %#x): returned %d", A[0], B[0], r1 ? r1 : r3); vio("timingsafe_bcmp", "wrong-result", "empty-regions", obs, 0, -1, a, a ^ 0xff); }
+        if (r2 || r4) { snprintf(obs, sizeof obs, "n=0 with different bytes at the two addresses (%#x vs %#x): returned %d", A[0], B[0], r2 ? r2 : r4); vio("timingsafe_memcmp", "wrong-result", "empty-regions", obs, 0, -1, a, a ^ 0xff); }
+        distinct_add(hash_str("r;empty")); }
     /* operands unchanged, overlapping / identical regions */
     for (size_t n = 1; n <= 32; n++) { for (size_t i = 0; i < n; i++) A[i] = (unsigned char)(i * 7 + 1);
         if (_timingsafe_bcmp_chk(A, A, n, n, n) != 0) vio("timingsafe_bcmp", "wrong-result", "same-region", "identical pointers reported as different", n, -1, 0, 0);
